@@ -223,8 +223,8 @@ static void exhaustiveCase(uint64_t idx, CaseResult &r, int costValues) {
 
 int main(int argc, char **argv) {
   std::vector<vf::Part> parts;
-  parts.push_back({"c13.random", [](uint64_t, Rng &rng, CaseResult &r) { randomCase(rng, r); }, 120});
-  parts.push_back({"c13.exhaustive2", [](uint64_t idx, Rng &, CaseResult &r) { exhaustiveCase(idx, r, 2); }, 1200});
-  parts.push_back({"c13.exhaustive3", [](uint64_t idx, Rng &, CaseResult &r) { exhaustiveCase(idx, r, 3); }, 3600});
+  parts.push_back({"c13.random", [](uint64_t, Rng &rng, CaseResult &r) { randomCase(rng, r); }, 20});
+  parts.push_back({"c13.exhaustive2", [](uint64_t idx, Rng &, CaseResult &r) { exhaustiveCase(idx, r, 2); }, 300});
+  parts.push_back({"c13.exhaustive3", [](uint64_t idx, Rng &, CaseResult &r) { exhaustiveCase(idx, r, 3); }, 900});
   return vf::runMain(argc, argv, parts);
 }
